@@ -13,13 +13,45 @@ NOTES = ("No hook is committed to /repo: user-level properties are decided throu
 TRUST = ("Trusted base: Go stdlib zlib/sha1, harness/core/gitfmt (independent decoders), the OS file system, rapid. "
          "Holds for the generated cases only, completely for sub-spaces marked exhaustive in the evidence.")
 
+SM = "stateful property-based testing (rapid t.Repeat scenario machine over the real goit binary); "
+
+def C(technique, text):
+    return {"technique": technique, "level_text": text, "level_note": TRUST}
+
 CHECKS = {
-    "C01": {
-        "technique": "property-based testing (rapid): model-based state machine on the object store API + CLI round trip, differential against independent SHA-1/zlib decoder and git hash-object",
-        "level_text": "Generated-input exploration: thousands of (kind, byte string) cases incl. empty, binary, header look-alike, multi-MiB; id, round trip, idempotent re-store and store-wide invariant checked against an independent decoder after every operation.",
-        "level_note": TRUST,
-    },
+    "C01": C("property-based testing (rapid): model-based state machine on the object store API + CLI round trip, differential against an independent SHA-1/zlib decoder and git hash-object",
+             "Generated-input exploration: thousands of (kind, byte string) cases incl. empty, binary, header look-alike, multi-MiB; id, round trip, idempotent re-store and store-wide invariant checked against an independent decoder after every operation."),
+    "C02": C(SM + "oracle: independent decode of the new commit vs. the pre-command staging area (multiset), parent/branch/HEAD/identity/message postconditions",
+             "Exploration of generated histories (file edits, add/rm/restore/reset/branch/switch, confusable name families, hostile messages, several identities); every successful commit is checked against an independent decoder of commit, trees and index."),
+    "C03": C(SM + "oracle: independent fsck invariant after every step, incl. hostile update-ref ids, hostile branch names, refused commands",
+             "Exploration of generated command sequences with hostile arguments; a whole-store invariant (HEAD, branches, commits, trees, blobs, index, object names = SHA-1 of content, objects only grow) is evaluated after every step whatever the exit status."),
+    "C04": C(SM + "oracle: reference model of the staging area computed from the pre-state (named files, files beneath named directories, deleted-but-tracked paths), whole-state comparison",
+             "Exploration over prior index states x working trees x argument lists; the new index, the stored blobs, the working tree and the rest of .goit are compared byte-wise with the model's prediction."),
+    "C05": C("property-based testing (rapid): crafted staging areas (path sets x arbitrary 20-byte ids, independent encoder) -> write-tree/commit -> reset --mixed / ls-files / cat-file -p round trip; plus stateful histories with recorded staged sets",
+             "Round-trip exploration: what the writer wrote is read back through Goit's reader and compared with the input and with an independent tree decoder, for names with spaces, between-sibling families, ids with 0x00/0x20/0x0a bytes and the empty snapshot."),
+    "C07": C(SM + "oracle: set difference HEAD snapshot vs staging area from independent decoders, compared with parsed status output; commit refusal/acceptance",
+             "Exploration over (HEAD snapshot, staging area) pairs reached by generated histories with between-sibling name families; status' staged section must equal the model's (kind, path) set and commit must be refused iff that set is empty."),
+    "C08": C(SM + "oracle: reflog parsed before the reset names the target; per-mode postconditions on refs, index, working tree from independent decoders",
+             "Exploration over histories x positions (valid, out of range, malformed) x modes x perturbed working trees; three stores are compared before/after byte-wise."),
+    "C09": C(SM + "oracle: state postcondition per argument form (file, directory, deleted file, deleted directory) from the pre-state index / HEAD snapshot",
+             "Exploration over (HEAD, index, working tree) triples and argument forms; named paths must equal their staged blob / HEAD entry, everything else byte-identical."),
+    "C10": C("exhaustive bounded exploration of the branch operation alphabet (explicit state tree with directory snapshots) + stateful property-based testing (rapid) beyond the bound; oracle: reference model of (branches, HEAD)",
+             "All operation sequences up to depth 2 (quick) / 3 (thorough) from three start states are enumerated; random sequences of ~30 operations beyond; after every step refs, HEAD, branch --list and rev-parse are compared with the model and refused operations must leave .goit byte-identical."),
+    "C11": C(SM + "oracle: reflog listing parsed before and after every command (append-only, shift by k, HEAD@{0} = HEAD commit + kind), reset/reflog agreement",
+             "Exploration over histories of commit/switch/switch -c/reset/rename/delete with hostile messages and all UTC offsets; the journal is compared entry-wise before/after each command."),
+    "C12": C("property-based testing (rapid) with exhaustive coverage of the 105 quarter-hour UTC offsets: write/read round trip of identity, instant, offset, message (API layer and CLI layer with hand-made TZif files)",
+             "Every offset in [-12:00,+14:00] is exercised in every run; names, e-mails, instants and messages are random; stored lines are checked against the Git form by an independent parser and read back through log / cat-file -p / NewCommit."),
+    "C13": C(SM + "oracle: three-way set comparison (index, working-tree bytes, ignore list) vs parsed status output; metamorphic relation for identical rewrites and touches",
+             "Exploration over staging states x working trees (added/edited/identically rewritten/touched/deleted files, removed directories, depth <= 4) with and without .goitignore."),
+    "C14": C(SM + "oracle: parent chain from an independent commit decoder vs parsed log output for drawn -n; metamorphic independence from index/working tree/other branches",
+             "Exploration over histories of length 1..16 (quick) / 1..50 (thorough) with resets, branches and shared commits, and k in {absent,0,1,2,len-1,len,len+1,1000}."),
+    "C17": C(SM + "oracle: invariant over the staging area after every command (no path inside .goit, none excluded by .goitignore), completeness of add, status listing, Goit's own files unchanged by reset/restore",
+             "Exploration over working trees with ignorable directories/extensions, argument forms of add ('.', parent directory, the ignored path, .goit paths), with and without .goitignore."),
+    "C18": C("grammar-based fuzzing of command lines (rapid) over all sub-commands x flags x argument classes against states reached by random prefixes; oracle: exit status in {0,1}, no panic text, confirmed time limit, byte-identical state for invalid-by-construction lines",
+             "Exploration: thousands of generated command lines incl. missing/surplus arguments, malformed ids, regexp metacharacters, hostile branch names, against fresh / unconfigured / emptied / renamed / multi-branch states."),
+    "C20": C(SM + "oracle: independent parser of the documented config layout vs model after every write; effective identity in the next commit; refusal without side effects while unset",
+             "Exploration over sequences of local/global writes (3 sections x 3 keys, values with = [ ] # quotes non-ASCII) interleaved with commits, all 16 combinations of (local set?, global set?) x (name, e-mail)."),
 }
 
 _pending = "check not built yet in this session (planned; see DESIGN.md section 4)"
-NOT_APPLICABLE = {("C%02d" % i): _pending for i in range(2, 21)}
+NOT_APPLICABLE = {k: _pending for k in ("C06", "C15", "C16", "C19")}
